@@ -245,6 +245,8 @@ class AccessMixin:
                 idx = z3.If(it < 0, it + L, it)
             rs.append(Res(p, self.elem_value(p, b, idx)))
             return rs
+        if type(b).__name__ == 'VKeys':
+            return [Res(p, VInt(z3.Select(b.ka, as_int(self.spec_coerce(i)))))]
         if isinstance(b, VTuple):
             c = const_int(as_int(i))
             if c is None:
@@ -315,11 +317,33 @@ class AccessMixin:
         if isinstance(b, VRef):
             out = []
             for (q, cls) in (self.classof(p, b) if not fc.spec else [(p, b.cls or 'dict')]):
+                if cls == 'deque':
+                    out.extend(self.deque_index(q, VRef(b.t, 'deque'), i, fc, node))
+                    continue
                 if cls != 'dict':
                     raise Unsupported('subscript of object of class %s' % cls)
                 out.extend(self.dict_get(q, VRef(b.t, 'dict'), i, fc, node))
             return out
         raise Unsupported('subscript of %r: %s' % (b, self.src(node)))
+
+    def deque_index(self, p, d, i, fc, node):
+        n = self.deque_len(p, d)
+        it = as_int(i)
+        rs = []
+        if not fc.spec:
+            bad = z3.Or(it >= n, it < -n)
+            if feasible(p, bad):
+                q = p.fork()
+                q.assume(bad)
+                q.trace.append('deque index out of range: %s' % self.src(node))
+                rs.append(self.raise_(q, 'IndexError', self.src(node)))
+            p.assume(z3.Not(bad))
+        h = z3.Select(harr(p, '$dqh'), d.t)
+        idx = z3.If(it < 0, h + n + it, h + it) if const_int(it) is None or const_int(it) < 0 else h + it
+        r = VRef(z3.Select(harr(p, '$dq'), d.t, idx))
+        self.wf_value(p, r)
+        rs.append(Res(p, r))
+        return rs
 
     def dict_facts(self, p, d, k):
         """finite-map facts instantiated at a lookup site"""
